@@ -728,6 +728,27 @@ impl Interpreter {
     // Call Stack Depth
     // ═══════════════════════════════════════════════════════════════════════════
 
+    /// Verification hook: read-only summary of the state that must be quiescent between runs.
+    #[cfg(tsrun_verif)]
+    pub fn verif_summary(&self) -> String {
+        format!(
+            "env_is_global={} env_guards={} call_stack={} active_vm={} active_saved_env={} active_module_env={} pending_orders={} cancelled={} responses={} suspended_for_order={} waiting_ctx={} pending_program={} pending_module_sources={}",
+            Gc::ptr_eq(&self.env, &self.global_env),
+            self.env_guards.len(),
+            self.call_stack.len(),
+            self.active_vm.is_some(),
+            self.active_saved_env.is_some(),
+            self.active_module_env.is_some(),
+            self.pending_orders.len(),
+            self.cancelled_orders.len(),
+            self.order_responses.len(),
+            self.suspended_for_order.is_some(),
+            self.wait_graph.has_waiting_contexts(),
+            self.pending_program.is_some(),
+            self.pending_module_sources.len(),
+        )
+    }
+
     /// Get the current call stack depth.
     ///
     /// Returns the total depth combining the interpreter's call stack and
@@ -4088,7 +4109,11 @@ impl Interpreter {
             new_target,
         );
 
+        #[cfg(tsrun_verif)]
+        crate::verif_hooks::nested_enter();
         let result = vm.run(self);
+        #[cfg(tsrun_verif)]
+        crate::verif_hooks::nested_exit();
 
         // Restore environment
         self.pop_env_guard();
